@@ -68,6 +68,8 @@ impl RunOut {
 
 thread_local! {
     static LAST_PANIC: RefCell<Option<String>> = const { RefCell::new(None) };
+    /// true while the library is being called under catch_unwind
+    static IN_CALL: std::cell::Cell<bool> = const { std::cell::Cell::new(false) };
 }
 static HOOK: Once = Once::new();
 
@@ -85,6 +87,9 @@ pub fn install_panic_hook() {
                     "<non-string panic payload>".to_string()
                 };
                 let loc = info.location().map(|l| format!("{}:{}:{}", l.file(), l.line(), l.column())).unwrap_or_default();
+                if !IN_CALL.with(|c| c.get()) {
+                    eprintln!("HARNESS-PANIC (outside a monitored library call): {} @ {}", msg, loc);
+                }
                 LAST_PANIC.with(|p| *p.borrow_mut() = Some(format!("{} @ {}", msg, loc)));
             })
         }));
@@ -119,7 +124,9 @@ fn wrap(total_bytes: usize, pend_seed: u64, f: impl FnOnce(u64) -> bool) -> RunO
     let p0 = exec::polls();
     let q0 = exec::pendings();
     let budget = poll_budget(total_bytes);
+    IN_CALL.with(|c| c.set(true));
     let r = catch_unwind(AssertUnwindSafe(|| f(budget)));
+    IN_CALL.with(|c| c.set(false));
     alloc::window_reset();
     let (a1, _) = alloc::counted();
     exec::set_pending_plan(0);
